@@ -31,7 +31,7 @@ mod v_iface_neighbor {
     use super::*;
     use crate::iface::SocketStorage;
     use crate::verif_common::*;
-    use crate::verif_dev::{CapDev, CapTx, NullDev, TxState};
+    use crate::verif_dev::{CapTx, NullDev, TxState};
 
     const T_MAX: i64 = 1i64 << 50; // microseconds
     const SEC: i64 = 1_000_000;
@@ -587,6 +587,7 @@ mod v_iface_neighbor {
             }
             assert_cache_is(&inner.neighbor_cache, &m, now);
             // the fragmenter holds nothing (no datagram parked for a guessed address)
+            #[cfg(feature = "_proto-fragmentation")]
             assert!(fragmenter.is_empty(), "prop:c16_nothing_parked_in_fragmenter");
         }
         if a_sent || b_sent {
@@ -930,197 +931,7 @@ mod v_iface_neighbor {
     }
 
     // ------------------------------------------------------------------ 5. socket data survives an unresolved neighbor
-    // `Interface::socket_egress` on a real SocketSet does not fit: with the TCP variant in the `Socket` enum CBMC runs
-    // out of 8 GB in propositional reduction even for the bare call (measured here and by udp_egress_exactly_once in
-    // iface_egress.rs).  The harness therefore runs the body of socket_egress's loop for one UDP socket item - the same
-    // calls in the same order on the real objects (Meta::egress_permitted, udp::Socket::dispatch, Device::transmit,
-    // InterfaceInner::dispatch_ip, Meta::neighbor_missing), copied from src/iface/interface/mod.rs lines 713-813 - with
-    // the socket and its Meta as separate objects instead of a SocketSet item.  The glue of socket_egress itself
-    // (iteration, match on the socket kind) is outside this harness's claim.
-    #[cfg(all(feature = "proto-ipv4", feature = "socket-udp"))]
-    enum EgressError {
-        Exhausted,
-        Dispatch,
-    }
-
-    /// A device whose transmit token writes into a separately allocated capture state.  (`verif_dev::CapDev`, which
-    /// embeds its three 64/96-byte buffers, makes CBMC run out of 8 GB in propositional reduction as soon as
-    /// dispatch_ip writes a frame through its token - measured: same harness, 0.6 M variables with this device.)
-    struct MiniDev<'s> {
-        tx_ok: bool,
-        st: &'s mut TxState<CAP>,
-    }
-    impl<'s> Device for MiniDev<'s> {
-        type RxToken<'a>
-            = crate::verif_dev::NoRx
-        where
-            Self: 'a;
-        type TxToken<'a>
-            = CapTx<'a, CAP>
-        where
-            Self: 'a;
-        fn capabilities(&self) -> DeviceCapabilities {
-            let mut c = DeviceCapabilities::default();
-            c.medium = Medium::Ethernet;
-            c.max_transmission_unit = 1514;
-            c.checksum = ChecksumCapabilities::ignored();
-            c
-        }
-        fn receive(&mut self, _t: Instant) -> Option<(Self::RxToken<'_>, Self::TxToken<'_>)> {
-            None
-        }
-        fn transmit(&mut self, _t: Instant) -> Option<Self::TxToken<'_>> {
-            if self.tx_ok {
-                Some(CapTx { st: &mut *self.st })
-            } else {
-                None
-            }
-        }
-    }
-
-    /// socket_egress's loop body for a UDP socket item; returns (socket was polled, PollResult of the pass)
-    #[cfg(all(feature = "proto-ipv4", feature = "socket-udp"))]
-    fn egress_one_udp(
-        inner: &mut InterfaceInner,
-        fragmenter: &mut Fragmenter,
-        device: &mut MiniDev<'_>,
-        meta: &mut crate::iface::socket_meta::Meta,
-        socket: &mut crate::socket::udp::Socket<'_>,
-    ) -> (bool, PollResult) {
-        let mut result = PollResult::None;
-        if !meta.egress_permitted(inner.now, |ip_addr| inner.has_neighbor(&ip_addr)) {
-            return (false, result);
-        }
-        let mut neighbor_addr = None;
-        let mut respond = |inner: &mut InterfaceInner, meta: PacketMeta, response: Packet| {
-            neighbor_addr = Some(response.ip_repr().dst_addr());
-            // = `device.transmit(inner.now).ok_or(EgressError::Exhausted)?` for MiniDev, written out: a token that has
-            // travelled through an `Option` loses its points-to precision in CBMC (8 GB exhausted, measured)
-            if !device.tx_ok {
-                return Err(EgressError::Exhausted);
-            }
-            let t = CapTx { st: &mut *device.st };
-            inner.dispatch_ip(t, meta, response, fragmenter).map_err(|_| EgressError::Dispatch)?;
-            result = PollResult::SocketStateChanged;
-            Ok(())
-        };
-        let r = socket.dispatch(inner, |inner, meta, (ip, udp, payload)| {
-            // The datagram's lengths are re-stated as the constants they are asserted to equal: read back from the
-            // socket's rings they are not constants for CBMC's symbolic execution, which then also encodes the
-            // fragmentation branch of dispatch_ip and runs out of memory (same observation: iface_egress.rs).
-            assert!(payload.len() == 4 && ip.payload_len() == 12, "prop:c16_queued_datagram_unmodified");
-            let ip = IpRepr::new(ip.src_addr(), ip.dst_addr(), ip.next_header(), 12, ip.hop_limit());
-            let payload = &payload[..4];
-            respond(inner, meta, Packet::new(ip, IpPayload::Udp(udp, payload)))
-        });
-        match r {
-            Err(EgressError::Exhausted) => {}
-            Err(EgressError::Dispatch) => {
-                meta.neighbor_missing(inner.now, neighbor_addr.expect("non-IP response packet"));
-            }
-            Ok(()) => {}
-        }
-        (true, result)
-    }
-
-    // @harness props=C16 cfg=KI4 tier=q to=900 mem=8 unwind=8 opts=nomem covers=5 funcs=udp::Socket::dispatch;InterfaceInner::dispatch_ip;InterfaceInner::lookup_hardware_addr;InterfaceInner::has_neighbor;socket_meta::Meta::egress_permitted;socket_meta::Meta::neighbor_missing;socket_meta::Meta::poll_at;udp::Socket::send_queue bounds=loop_body_of_Interface::socket_egress_for_one_UDP_socket_(socket_and_Meta_as_separate_objects,_not_in_a_SocketSet;_datagram_lengths_asserted_and_re-stated_as_constants);_one_queued_4-byte_datagram_to_any_on-link_host_192.168.1.x_without_a_live_cache_entry;_neighbor_cache_holding_2_entries_(fixed_keys_192.168.1.2,_.77;_any_addresses,_expiries),_any_silent_until;_device_with_or_without_a_free_transmit_buffer;_one_egress_pass,_then_Meta_probed_at_any_instant_within_2_s_and_the_socket's_next_dispatch_observed
-    #[kani::proof]
-    pub(crate) fn egress_keeps_data_when_neighbor_unknown() {
-        #[cfg(all(feature = "proto-ipv4", feature = "socket-udp"))]
-        {
-            use crate::iface::socket_meta::Meta;
-            use crate::socket::udp as sudp;
-            let mut st = TxState::<CAP>::new();
-            let mut dev = MiniDev { tx_ok: true, st: &mut st };
-            let now = any_instant(0, T_MAX);
-            let mut iface = Interface::new(Config::new(HardwareAddress::Ethernet(OWN_MAC)), &mut dev, now);
-            push_own_addrs(&mut iface, false);
-            // 2 entries (fixed keys .2 and .77): the later fill of dst replaces one of them or appends, at concrete offsets
-            let (c, m) = cache_with(2, now);
-            iface.inner.neighbor_cache = c;
-            let mut inner = iface.inner;
-            let mut fragmenter = iface.fragmenter;
-            let x: u8 = kani::any();
-            kani::assume(x != 255);
-            let dst = IpAddress::Ipv4(Ipv4Address::new(192, 168, 1, x));
-            // the hardware address of dst is unknown: no entry, or an expired one
-            kani::assume(!m_lookup(&m, &dst, now).found());
-
-            let mut rx_meta = [sudp::PacketMetadata::EMPTY; 1];
-            let mut rx_pay = [0u8; 8];
-            let mut tx_meta = [sudp::PacketMetadata::EMPTY; 1];
-            let mut tx_pay = [0u8; 8];
-            let mut sock = sudp::Socket::new(
-                sudp::PacketBuffer::new(&mut rx_meta[..], &mut rx_pay[..]),
-                sudp::PacketBuffer::new(&mut tx_meta[..], &mut tx_pay[..]),
-            );
-            let lport: u16 = kani::any();
-            let rport: u16 = kani::any();
-            kani::assume(lport != 0 && rport != 0);
-            sock.bind(lport).unwrap();
-            let data: [u8; 4] = kani::any();
-            sock.send_slice(&data, (dst, rport)).unwrap();
-            let mut meta = Meta::default();
-
-            // ---- pass 1: neighbor unknown
-            dev.tx_ok = kani::any();
-            let tx_ok1 = dev.tx_ok;
-            let (polled1, r1) = egress_one_udp(&mut inner, &mut fragmenter, &mut dev, &mut meta, &mut sock);
-            assert!(polled1, "prop:c16_fresh_socket_is_polled");
-            // the datagram is still queued, nothing claims to have been sent
-            assert!(sock.send_queue() == 4, "prop:c16_datagram_stays_queued_while_neighbor_unknown"); // (octets)
-            assert!(r1 == PollResult::None, "prop:c16_unresolved_egress_reports_no_progress");
-            // at most one frame, and it is the ARP request - never the datagram to a guessed address
-            let arp_sent = dev.st.frames == 1;
-            assert!(dev.st.frames <= 1, "prop:c16_at_most_one_arp_request");
-            assert!(arp_sent == (tx_ok1 && now >= m.silent), "prop:c16_request_only_when_not_silent");
-            if arp_sent {
-                check_request_frame(&dev.st.buf0, dev.st.len0, &dst);
-            }
-            let mut m1 = m;
-            if arp_sent {
-                m1.silent = plus(now, SEC);
-            }
-            assert_cache_is(&inner.neighbor_cache, &m1, now);
-            // the socket waits for that neighbor until now + 1 s unless the neighbor is found
-            if tx_ok1 {
-                assert!(meta.poll_at(PollAt::Now, |_| false, now) == PollAt::Time(plus(now, SEC)), "prop:c16_silenced_socket_polled_at_end_of_silence");
-                assert!(meta.poll_at(PollAt::Now, |a| a == dst, now) == PollAt::Now, "prop:c16_socket_unsilenced_when_neighbor_found");
-                assert!(meta.poll_at(PollAt::Now, |a| a != dst, now) == PollAt::Time(plus(now, SEC)), "prop:c16_socket_waits_for_its_own_neighbor");
-            } else {
-                // device exhausted: nothing was attempted, the socket is not silenced
-                assert!(meta.poll_at(PollAt::Now, |_| false, now) == PollAt::Now, "prop:c16_exhausted_device_does_not_silence_socket");
-            }
-
-            // ---- the socket is skipped while silenced (any instant before now + 1 s, neighbor still unknown) ...
-            let t2 = any_instant(now.total_micros(), now.total_micros() + 2 * SEC);
-            let permitted = meta.egress_permitted(t2, |_| false);
-            if tx_ok1 {
-                assert!(permitted == (t2 >= plus(now, SEC)), "prop:c16_socket_silenced_for_1s_while_neighbor_missing");
-            } else {
-                assert!(permitted, "prop:c16_exhausted_device_does_not_silence_socket");
-            }
-            // ---- ... and the queued datagram is intact: what the socket hands to the interface next is the original
-            // datagram (its way onto the wire once the neighbor is known is dispatch_ip_neighbor_step's hit case)
-            let mut seen = false;
-            let r2: Result<(), ()> = sock.dispatch(&mut inner, |_cx, _meta, (ip, udp, payload)| {
-                seen = true;
-                assert!(ip.src_addr() == IpAddress::Ipv4(OWN4) && ip.dst_addr() == dst && ip.next_header() == IpProtocol::Udp && ip.payload_len() == 12, "prop:c16_queued_datagram_unmodified");
-                assert!(udp.src_port == lport && udp.dst_port == rport, "prop:c16_queued_datagram_unmodified");
-                assert!(payload.len() == 4 && payload[0] == data[0] && payload[1] == data[1] && payload[2] == data[2] && payload[3] == data[3], "prop:c16_queued_datagram_unmodified");
-                Ok(())
-            });
-            assert!(seen && r2.is_ok(), "prop:c16_datagram_stays_queued_while_neighbor_unknown");
-            assert!(sock.send_queue() == 0, "prop:c16_datagram_leaves_queue_only_when_emitted");
-            kani::cover!(arp_sent && m_key_index(&m, &dst).is_none(), "ARP request sent for a neighbor never seen");
-            kani::cover!(!arp_sent && tx_ok1 && now < m.silent, "rate limited: no request, datagram kept");
-            kani::cover!(m_key_index(&m, &dst).is_some() && arp_sent, "expired entry not used, rediscovered");
-            kani::cover!(tx_ok1 && !permitted && seen, "silenced socket would be skipped; its datagram is intact");
-            kani::cover!(!tx_ok1 && permitted, "device exhausted: socket not silenced");
-        }
-    }
-
-    // ------------------------------------------------------------------ 5b. the real Interface::socket_egress
+    // The real `Interface::socket_egress` on a SocketSet holding one UDP socket.
     // A device whose tokens carry no pointer: frames are captured in a static.  (A token holding `&mut TxState` that
     // travels through the `Option` returned by `Device::transmit` loses its points-to precision in CBMC.)
     #[allow(unsafe_code)]
@@ -1173,9 +984,9 @@ mod v_iface_neighbor {
         }
     }
 
-    // @harness props=C16 cfg=KI4 tier=q to=900 mem=8 unwind=8 opts=nomem covers=3 funcs=Interface::socket_egress;udp::Socket::dispatch;InterfaceInner::dispatch_ip;InterfaceInner::lookup_hardware_addr;InterfaceInner::has_neighbor;socket_meta::Meta::egress_permitted;socket_meta::Meta::neighbor_missing bounds=the_real_Interface::socket_egress_on_a_SocketSet_with_one_UDP_socket;_one_queued_4-byte_datagram_to_any_on-link_host_192.168.1.x_without_a_live_cache_entry;_neighbor_cache_holding_2_entries_(fixed_keys),_any_silent_until;_device_with_or_without_a_free_transmit_buffer
+    // @harness props=C16 cfg=KI4 tier=q to=900 mem=8 unwind=8 opts=nomem covers=5 funcs=Interface::socket_egress;udp::Socket::dispatch;udp::Socket::send_queue;InterfaceInner::dispatch_ip;InterfaceInner::lookup_hardware_addr;InterfaceInner::has_neighbor;socket_meta::Meta::egress_permitted;socket_meta::Meta::neighbor_missing;socket_meta::Meta::poll_at bounds=SocketSet_with_one_UDP_socket_holding_one_queued_4-byte_datagram_to_any_on-link_host_192.168.1.x_without_a_live_cache_entry;_neighbor_cache_holding_2_entries_(fixed_keys_192.168.1.2,_.77;_any_addresses,_expiries),_any_silent_until;_device_with_or_without_a_free_transmit_buffer;_one_egress_pass,_Meta_probed_at_any_instant_within_2_s,_then_the_socket's_next_dispatch_observed
     #[kani::proof]
-    pub(crate) fn socket_egress_neighbor_unknown() {
+    pub(crate) fn egress_keeps_data_when_neighbor_unknown() {
         #[cfg(all(feature = "proto-ipv4", feature = "socket-udp"))]
         {
             use crate::socket::udp as sudp;
@@ -1183,12 +994,15 @@ mod v_iface_neighbor {
             let now = any_instant(0, T_MAX);
             let mut iface = Interface::new(Config::new(HardwareAddress::Ethernet(OWN_MAC)), &mut dev, now);
             push_own_addrs(&mut iface, false);
+            // 2 entries (fixed keys .2 and .77): the later fill of dst replaces one of them or appends, at concrete offsets
             let (c, m) = cache_with(2, now);
             iface.inner.neighbor_cache = c;
             let x: u8 = kani::any();
             kani::assume(x != 255);
             let dst = IpAddress::Ipv4(Ipv4Address::new(192, 168, 1, x));
+            // the hardware address of dst is unknown: no entry, or an expired one
             kani::assume(!m_lookup(&m, &dst, now).found());
+
             let mut rx_meta = [sudp::PacketMetadata::EMPTY; 1];
             let mut rx_pay = [0u8; 8];
             let mut tx_meta = [sudp::PacketMetadata::EMPTY; 1];
@@ -1206,27 +1020,64 @@ mod v_iface_neighbor {
             let mut storage: [SocketStorage; 1] = [SocketStorage::EMPTY];
             let mut sockets = SocketSet::new(&mut storage[..]);
             let h = sockets.add(sock);
+
+            // ---- pass 1: neighbor unknown
             dev.tx_ok = kani::any();
+            let tx_ok1 = dev.tx_ok;
             let r1 = iface.socket_egress(&mut dev, &mut sockets);
-            let cap = gdev::captured();
+            // the datagram (4 octets) is still queued, nothing claims to have been sent
             assert!(sockets.get::<sudp::Socket>(h).send_queue() == 4, "prop:c16_datagram_stays_queued_while_neighbor_unknown");
             assert!(r1 == PollResult::None, "prop:c16_unresolved_egress_reports_no_progress");
-            let arp_sent = cap.frames == 1;
-            assert!(cap.frames <= 1, "prop:c16_at_most_one_arp_request");
-            assert!(arp_sent == (dev.tx_ok && now >= m.silent), "prop:c16_request_only_when_not_silent");
+            // at most one frame, and it is the ARP request - never the datagram to a guessed address
+            let frames1 = gdev::captured().frames;
+            let arp_sent = frames1 == 1;
+            assert!(frames1 <= 1, "prop:c16_at_most_one_arp_request");
+            assert!(arp_sent == (tx_ok1 && now >= m.silent), "prop:c16_request_only_when_not_silent");
             if arp_sent {
-                check_request_frame(&cap.buf0, cap.len0, &dst);
+                check_request_frame(&gdev::captured().buf0, gdev::captured().len0, &dst);
             }
-            let item = sockets.items_mut().next().unwrap();
-            if dev.tx_ok {
-                assert!(item.meta.poll_at(PollAt::Now, |_| false, now) == PollAt::Time(plus(now, SEC)), "prop:c16_silenced_socket_polled_at_end_of_silence");
-                assert!(item.meta.poll_at(PollAt::Now, |a| a == dst, now) == PollAt::Now, "prop:c16_socket_unsilenced_when_neighbor_found");
-            } else {
-                assert!(item.meta.poll_at(PollAt::Now, |_| false, now) == PollAt::Now, "prop:c16_exhausted_device_does_not_silence_socket");
+            let mut m1 = m;
+            if arp_sent {
+                m1.silent = plus(now, SEC);
             }
-            kani::cover!(arp_sent, "ARP request sent");
-            kani::cover!(!arp_sent && dev.tx_ok, "rate limited: no request, datagram kept");
-            kani::cover!(!dev.tx_ok, "device exhausted");
+            assert_cache_is(&iface.inner.neighbor_cache, &m1, now);
+            // the socket waits for that neighbor: no egress before now + 1 s unless the neighbor is found
+            {
+                let item = sockets.items_mut().next().unwrap();
+                let t2 = any_instant(now.total_micros(), now.total_micros() + 2 * SEC);
+                let permitted = item.meta.egress_permitted(t2, |_| false);
+                if tx_ok1 {
+                    assert!(permitted == (t2 >= plus(now, SEC)), "prop:c16_socket_silenced_for_1s_while_neighbor_missing");
+                    assert!(item.meta.poll_at(PollAt::Now, |_| false, now) == PollAt::Time(plus(now, SEC)), "prop:c16_silenced_socket_polled_at_end_of_silence");
+                    assert!(item.meta.poll_at(PollAt::Now, |a| a == dst, now) == PollAt::Now, "prop:c16_socket_unsilenced_when_neighbor_found");
+                    assert!(item.meta.poll_at(PollAt::Now, |a| a != dst, now) == PollAt::Time(plus(now, SEC)), "prop:c16_socket_waits_for_its_own_neighbor");
+                } else {
+                    // device exhausted: nothing was attempted, the socket is not silenced
+                    assert!(permitted, "prop:c16_exhausted_device_does_not_silence_socket");
+                }
+            }
+
+            // ---- the queued datagram is intact: what the socket hands to the interface next is the original datagram.
+            // (Its way onto the wire once the neighbor is known is dispatch_ip_neighbor_step's hit case.  A second real
+            // socket_egress pass that transmits does not fit: the datagram length read back from the socket's rings
+            // is not a constant for CBMC's symbolic execution, which then also encodes dispatch_ip's fragmentation
+            // branch and runs out of 8 GB - the same observation as udp_egress_exactly_once in iface_egress.rs.)
+            let mut seen = false;
+            let sock = sockets.get_mut::<sudp::Socket>(h);
+            let r2: Result<(), ()> = sock.dispatch(&mut iface.inner, |_cx, _meta, (ip, udp, payload)| {
+                seen = true;
+                assert!(ip.src_addr() == IpAddress::Ipv4(OWN4) && ip.dst_addr() == dst && ip.next_header() == IpProtocol::Udp && ip.payload_len() == 12, "prop:c16_queued_datagram_unmodified");
+                assert!(udp.src_port == lport && udp.dst_port == rport, "prop:c16_queued_datagram_unmodified");
+                assert!(payload.len() == 4 && payload[0] == data[0] && payload[1] == data[1] && payload[2] == data[2] && payload[3] == data[3], "prop:c16_queued_datagram_unmodified");
+                Ok(())
+            });
+            assert!(seen && r2.is_ok(), "prop:c16_datagram_stays_queued_while_neighbor_unknown");
+            assert!(sock.send_queue() == 0, "prop:c16_datagram_leaves_queue_only_when_emitted");
+            kani::cover!(arp_sent && m_key_index(&m, &dst).is_none(), "ARP request sent for a neighbor never seen");
+            kani::cover!(!arp_sent && tx_ok1 && now < m.silent, "rate limited: no request, datagram kept");
+            kani::cover!(m_key_index(&m, &dst).is_some() && arp_sent, "expired entry not used, rediscovered");
+            kani::cover!(!tx_ok1, "device exhausted: nothing attempted, socket not silenced");
+            kani::cover!(m.silent > now && m.silent.total_micros() - now.total_micros() == SEC, "request had just been sent");
         }
     }
 
